@@ -106,9 +106,11 @@ type apRes struct {
 
 type cmpFlags struct {
 	// Must is "accept", "reject" or "free" (the property makes no claim).
-	Must     string `json:"must"`
-	Cmp      bool   `json:"cmp"`
-	Skip4in6 bool   `json:"skip4in6"`
+	Must string `json:"must"`
+	// V4: the input IP has an IPv4 form (To4() != nil).
+	V4       bool `json:"v4"`
+	Cmp      bool `json:"cmp"`
+	Skip4in6 bool `json:"skip4in6"`
 }
 
 func famOf(a netip.Addr) string {
@@ -475,6 +477,7 @@ type convVec struct {
 
 	AP   apRes  `json:"ap"`
 	Must string `json:"must"`
+	V4   bool   `json:"v4"`
 }
 
 var famList = [3]string{"v4", "v6", "n"}
@@ -576,6 +579,11 @@ func judge(res *vh.Result, u unit, o *outcome, tag string, probe bool, st *judge
 			want := [3]prefixRes{v.P4, v.P6, v.PN}[i]
 			cmp := [3]cmpFlags{v.C4, v.C6, v.CN}[i]
 			got := o.P[i]
+			if famList[i] == "n" && got.OK && (is4in6(got.B) || (cmp.V4 && got.Fam != "v4")) {
+				res.Mismatch(key, fmt.Sprintf("succeeded with %+v: a successful NoMapped result must have the unmapped family "+
+					"(never an IPv4-mapped IPv6 address; IPv4 for an IP with an IPv4 form)%s", got, tag), v)
+				continue
+			}
 			switch {
 			case cmp.Must == "reject" && got.OK:
 				res.Mismatch(key, fmt.Sprintf("returned %+v without an error; the subnet must be rejected "+
@@ -608,6 +616,8 @@ func judge(res *vh.Result, u unit, o *outcome, tag string, probe bool, st *judge
 		case "na":
 			got := o.AP
 			switch {
+			case got.OK && is4in6(got.B):
+				res.Mismatch(key, fmt.Sprintf("returned the IPv4-mapped %+v: the result must have the unmapped family%s", got, tag), v)
 			case v.Must == "accept" && !sameAPRes(got, v.AP):
 				res.Mismatch(key, fmt.Sprintf("returned %+v, the specification requires %+v%s", got, v.AP, tag), v)
 			case v.Must == "reject" && got.OK:
@@ -808,6 +818,19 @@ func stressConv(args []string) error {
 	watch.restore()
 	return res.Close(map[string]any{"stress_units": len(units), "goroutines": ng, "rounds": rounds,
 		"stress_executions": execs, "stress_calls": st.calls})
+}
+
+// is4in6: b is a 16-byte IPv4-mapped IPv6 address.
+func is4in6(b []int) bool {
+	if len(b) != 16 || b[10] != 255 || b[11] != 255 {
+		return false
+	}
+	for _, c := range b[:10] {
+		if c != 0 {
+			return false
+		}
+	}
+	return true
 }
 
 // meetsPrefix: got is an accepted prefix with want's family, length and
@@ -1163,6 +1186,18 @@ func record(args []string) error {
 		case r < 6: // IPNetToPrefix*
 			ip := pick()
 			mask := g.mask(len(ip.b))
+			if g.intn(6) == 0 {
+				// What net.ParseCIDR("::ffff:a.b.c.d/k") or net.IPv4(...) with
+				// net.CIDRMask(k, 128) give: an IPv4 address under a 16-byte mask.
+				b := make([]byte, 16)
+				g.fill(b[12:])
+				b[10], b[11] = 0xFF, 0xFF
+				if g.intn(3) == 0 {
+					b = b[12:]
+				}
+				ip, mask = private(b), cidrMask(96+g.intn(33), 16)
+				counts["parsecidr_shaped"]++
+			}
 			ev := netEvent{T: "net", IP: mkSeq(ip.b), Mask: mkSeq(mask)}
 			bad := false
 			for _, fam := range []string{"v4", "v6", "n"} {
